@@ -88,12 +88,15 @@ func runeMatchTerm(in *syntax.Inst, r *Term) *Term {
 		return Not(Eq(r, BV(32, '\n')))
 	case syntax.InstRune1:
 		if syntax.Flags(in.Arg)&syntax.FoldCase != 0 {
-			panic(unsupported{"regexp: case folding"})
+			return foldOrbitTerm(in.Rune[0], r)
 		}
 		return Eq(r, BV(32, uint64(uint32(in.Rune[0]))))
 	case syntax.InstRune:
 		if syntax.Flags(in.Arg)&syntax.FoldCase != 0 {
-			panic(unsupported{"regexp: case folding"})
+			if len(in.Rune) == 1 {
+				return foldOrbitTerm(in.Rune[0], r)
+			}
+			panic(unsupported{"regexp: case folding of a character class"})
 		}
 		if len(in.Rune) == 1 {
 			return Eq(r, BV(32, uint64(uint32(in.Rune[0]))))
